@@ -4,14 +4,18 @@
    harness: a node deleted, a list entry duplicated under a new key, a leaf-list
    value appended) through schema.ValidateSchema and schema.AddDefaults and logs
    one event per tree:
-     [sid, d, errs, deco1, deco2]   errs = the errors decoded to [k, n, path];
-                                    deco1 / deco2 = walk of AddDefaults applied once / twice.
+     [sid, d, errs, deco1, deco2, after, errs2]
+        errs = the errors decoded to [k, n, path]; deco1 / deco2 = walk of AddDefaults applied
+        once / twice; then, on the SAME tree object, after = walk of the explicit tree again,
+        errs2 = ValidateSchema again.
    The event must be what the specification prescribes:
      verdict     errors are reported iff Violations # {}
      spurious    every reported error is a violation of the tree
      unreported  every violation in MustReport is reported
      decorate    deco1 = Decorate(d) (modulo empty non-presence containers)
      twice       deco2 = the same tree
+     explicit-altered   after = d: Decorate is a view, the explicit tree is what it was
+     verdict-changed    errs2 is judged like errs (same tree, same violations)
    A deviating event is reported (FAILJSON) with a classification in spec terms.  *)
 EXTENDS DataValidate, Json, TLC
 CONSTANTS TraceFile, SchemaFile, MaxFail
@@ -56,23 +60,29 @@ Judge(e) ==
       viol == {NoChoiceName(v) : v \in Violations(sch, d)}
       must == {NoChoiceName(v) : v \in MustReport(sch, d)}
       errs == {[k |-> e.errs[i].k, n |-> e.errs[i].n, path |-> e.errs[i].path] : i \in 1..Len(e.errs)}
+      ers2 == {[k |-> e.errs2[i].k, n |-> e.errs2[i].n, path |-> e.errs2[i].path] : i \in 1..Len(e.errs2)}
+      aft  == ToSet(e.after)
       deco == Prune(sch, Decorate(sch, d))
       g1   == Prune(sch, ToSet(e.deco1))
       g2   == Prune(sch, ToSet(e.deco2))
       vbad == IF (errs = {}) # (viol = {}) THEN "verdict"
               ELSE IF ~(errs \subseteq viol) THEN "spurious"
-              ELSE IF ~(must \subseteq errs) THEN "unreported" ELSE ""
-      dbad == IF g1 # deco THEN "decorate" ELSE IF g2 # deco THEN "twice" ELSE ""
-      v1   == IF vbad = "spurious" THEN CHOOSE v \in errs \ viol : TRUE
+              ELSE IF ~(must \subseteq errs) THEN "unreported"
+              ELSE IF (ers2 = {}) # (viol = {}) \/ ~(ers2 \subseteq viol) \/ ~(must \subseteq ers2) THEN "verdict-changed" ELSE ""
+      dbad == IF g1 # deco THEN "decorate" ELSE IF g2 # deco THEN "twice"
+              ELSE IF aft # d THEN "explicit-altered" ELSE ""
+      v1   == IF vbad = "verdict-changed" THEN [k |-> "after-decorate", n |-> "", path |-> << >>]
+              ELSE IF vbad = "spurious" THEN CHOOSE v \in errs \ viol : TRUE
               ELSE IF vbad = "unreported" THEN CHOOSE v \in must \ errs : TRUE
               ELSE IF viol # {} THEN CHOOSE v \in viol : TRUE ELSE [k |-> "none", n |-> "", path |-> << >>]
   IN [vbad |-> vbad, dbad |-> dbad, sid |-> e.sid, d |-> e.d,
       vk |-> IF vbad = "" THEN "" ELSE v1.k, vn |-> IF vbad = "" THEN "" ELSE v1.n,
       wantviol |-> viol, goterrs |-> errs,
       diff |-> IF dbad = "" THEN [what |-> "", inchoice |-> FALSE, leaf |-> << >>]
+               ELSE IF dbad = "explicit-altered" THEN DecoDiff(sch, d, d, aft)
                ELSE DecoDiff(sch, d, deco, IF dbad = "decorate" THEN g1 ELSE g2),
-      wantdeco |-> IF dbad = "" THEN {} ELSE deco,
-      gotdeco |-> IF dbad = "" THEN {} ELSE (IF dbad = "decorate" THEN g1 ELSE g2)]
+      wantdeco |-> IF dbad = "" THEN {} ELSE IF dbad = "explicit-altered" THEN d ELSE deco,
+      gotdeco |-> IF dbad = "" THEN {} ELSE (IF dbad = "decorate" THEN g1 ELSE IF dbad = "twice" THEN g2 ELSE aft)]
 TStep == /\ l <= Len(Trace) /\ l' = l + 1
          /\ LET j == Judge(Trace[l]) IN
             IF j.vbad = "" /\ j.dbad = "" THEN UNCHANGED nfail
